@@ -203,7 +203,8 @@ def run_tlc(module, cfg, env=None, workers=1, timeout=600, xmx="2g", job=None, e
     meta = os.path.join(BUILD, "tlc", job)
     shutil.rmtree(meta, ignore_errors=True)
     os.makedirs(meta, exist_ok=True)
-    jopts = ["-Xss512m", "-Xmx" + xmx, "-XX:+UseSerialGC" if workers <= 2 else "-XX:+UseParallelGC"]
+    jopts = ["-Xss512m", "-Xmx" + xmx, "-XX:+UseSerialGC" if workers <= 2 else "-XX:+UseParallelGC",
+             "-Djava.io.tmpdir=" + meta]
     if deque:
         jopts.append("-Dtlc2.tool.queue.IStateQueue=StateDeque")
     cmd = ["java"] + jopts + ["-cp", TLA_JAR + ":" + TLA_DEPS, "tlc2.TLC",
